@@ -19,6 +19,7 @@ import (
 	"fmt"
 	"math/rand"
 	"os"
+	"strings"
 
 	pf "github.com/weedbox/pokerface"
 	"github.com/weedbox/pokerface/combination"
@@ -99,11 +100,12 @@ func (c *HCfg) options() *pf.GameOptions {
 // ---- one hand under test -----------------------------------------------------------
 
 type hand struct {
-	tw     *traceWriter
-	run    int
-	g      pf.Game
-	script HScript
-	steps  int
+	tw       *traceWriter
+	run      int
+	g        pf.Game
+	script   HScript
+	steps    int
+	panicked bool // the engine panicked on the run's own game: the run stops
 }
 
 func cloneGS(gs *pf.GameState) *pf.GameState {
@@ -126,8 +128,18 @@ func newHand(tw *traceWriter, run int, cfg HCfg) *hand {
 	return h
 }
 
-// callOn performs one operation of the alphabet on game g
-func callOn(g pf.Game, op HOp) error {
+// callOn performs one operation of the alphabet on game g; a panic inside the engine is recorded as an error
+// ("PANIC: ...") - the call did not succeed - instead of killing the driver
+func callOn(g pf.Game, op HOp) (err error) {
+	defer func() {
+		if rec := recover(); rec != nil {
+			err = fmt.Errorf("PANIC: %v", rec)
+		}
+	}()
+	return callOnRaw(g, op)
+}
+
+func callOnRaw(g pf.Game, op HOp) error {
 	switch op.Op {
 	case "Start":
 		return g.Start()
@@ -195,7 +207,7 @@ func (h *hand) do(op HOp) error {
 	extra := M{"kind": "main"}
 	var err error
 	if op.Op == "Start" {
-		err = h.g.Start()
+		err = callOn(h.g, HOp{Op: "Start"})
 		extra["shuffled"] = cards(h.g.GetState().Meta.Deck)
 		if err == nil && h.script.Cfg.Deck != nil {
 			// nothing is dealt before the first ReadyForAll: the state is the source of truth
@@ -207,6 +219,9 @@ func (h *hand) do(op HOp) error {
 		err = callOn(h.g, op)
 	}
 	h.tw.emit(h.run, false, op.Op, op.Seat, op.X, err, h.g.GetState(), extra)
+	if err != nil && strings.HasPrefix(err.Error(), "PANIC") {
+		h.panicked = true
+	}
 	return err
 }
 
@@ -218,7 +233,9 @@ func (h *hand) probe(op HOp) error {
 	return err
 }
 
-func (h *hand) closed() bool { return h.g.GetState().Status.CurrentEvent == "GameClosed" }
+func (h *hand) closed() bool {
+	return h.panicked || h.g.GetState().Status.CurrentEvent == "GameClosed"
+}
 
 // ---- configuration generator -------------------------------------------------------
 
